@@ -34,6 +34,9 @@ type c05ver struct {
 	Step    int
 	Epoch   int
 	Refresh bool
+	// Reloaded: the entry went through dump -> load_dump (a restart), which keeps
+	// its times to the second only
+	Reloaded bool
 }
 
 type c05cfg struct {
@@ -50,6 +53,7 @@ type c05cfg struct {
 	inflightBg map[int]int
 	bgTotal map[int]int
 	fg      map[*query_context.Context]bool
+	pRestart int // percent per phase: the cache is dumped and the dump loaded into a new instance
 }
 
 type fgMark struct{}
@@ -77,6 +81,8 @@ func c05Setup(rc *RunCtx) simrt.Config {
 	rc.Cfg["lazy"] = c.lazy
 	rc.Cfg["keys"] = c.keys
 	rc.Cfg["phases"] = c.phases
+	c.pRestart = []int{0, 0, 25}[r.Choose(3)]
+	rc.Cfg["p_restart"] = c.pRestart
 	rc.Cfg["p_origin_err"] = c.pErr
 	rc.Cfg["p_origin_slow"] = c.pSlow
 	rc.priv = c
@@ -211,6 +217,25 @@ func c05Main(rc *RunCtx) {
 	start := time.Now()
 	for ph := 0; ph < c.phases && rc.Viol == nil; ph++ {
 		c.epoch++
+		if ph > 0 && simrt.Choose(100) < c.pRestart {
+			// restart: what clients are served must not change (to the second)
+			b, code := apiDump(cp)
+			if code != 200 {
+				rc.Fail("dump_failed", "GET /dump returned %d", code)
+				break
+			}
+			cp2 := cacheplug.NewCache(&cacheplug.Args{Size: 4096, LazyCacheTTL: c.lazy}, cacheplug.Opts{})
+			if code := apiLoad(cp2, b); code != 200 {
+				rc.Fail("load_dump_failed", "POST /load_dump of the dump just taken returned %d", code)
+				break
+			}
+			cp.Close()
+			cp = cp2
+			for _, v := range c.vers {
+				v.Reloaded = true
+			}
+			simrt.Fault("restart_via_dump")
+		}
 		key := simrt.Choose(c.keys)
 		// choose the instant of this phase around a boundary of the newest version of this key
 		if vs := c.byKey[key]; len(vs) > 0 {
@@ -323,6 +348,14 @@ func c05Query(rc *RunCtx, c *c05cfg, cp *cacheplug.Cache, walker sequence.ChainW
 	elapsed := now - ver.At
 	life := time.Duration(c05Lifetime(ver.Ans)) * time.Second
 	es := uint32(elapsed / time.Second)
+	if ver.Reloaded {
+		// whole-second dump times blur every boundary by up to a second
+		near := func(a, b time.Duration) bool { d := a - b; return d > -time.Second && d < time.Second }
+		if near(elapsed, life) || (c.lazy > 0 && near(elapsed, time.Duration(c.lazy)*time.Second)) {
+			simrt.Probe("c05.reloaded_entry_near_a_boundary")
+			return
+		}
+	}
 	var opt int
 	for _, rr := range r.Extra {
 		if rr.Header().Rrtype == dns.TypeOPT {
@@ -345,6 +378,16 @@ func c05Query(rc *RunCtx, c *c05cfg, cp *cacheplug.Cache, walker sequence.ChainW
 			want := uint32(1)
 			if orig[i] > es {
 				want = orig[i] - es
+			}
+			if ver.Reloaded && got[i] != want {
+				// stored time truncated to the second: one more second may have "elapsed"
+				w2 := uint32(1)
+				if orig[i] > es+1 {
+					w2 = orig[i] - es - 1
+				}
+				if got[i] == w2 {
+					continue
+				}
 			}
 			if got[i] != want {
 				rc.Fail("wrong_ttl_on_hit", "key k%d version %d: record %d has TTL %d after %v (stored TTL %d), expected %d", key, v, i, got[i], elapsed, orig[i], want)
